@@ -359,12 +359,17 @@ func c18Docs() []doc.Doc {
 		secs(nil), secs(map[string]interface{}{"x": []interface{}{1.0, 2.0}}), secs(map[string]interface{}{"x": map[string]interface{}{"y": 1.0}, "a/b": 2.0, "x~": 3.0}),
 		secs(map[string]interface{}{"alsoKnownAs": []interface{}{"https://a.example"}, "x": []interface{}{map[string]interface{}{"z": nil}}}),
 		{"publicKey": nil, "service": []interface{}{}, "x": 0.0},
+		// states an accepted ietf-json-patch can leave behind (only /publicKey and /service are protected): alsoKnownAs holding
+		// strings that are no URIs, non-strings, or no list at all
+		secs(map[string]interface{}{"alsoKnownAs": []interface{}{"%zz", ":foo", "http://[::1", "https://a.example"}}),
+		secs(map[string]interface{}{"alsoKnownAs": []interface{}{1.0, nil, map[string]interface{}{"x": 1.0}, "https://a.example"}}),
+		{"alsoKnownAs": 5.0}, {"alsoKnownAs": map[string]interface{}{"a": 1.0}}, {"alsoKnownAs": nil}, {"alsoKnownAs": "https://a.example"},
 	}
 }
 
 func c18(r *hx.Run) {
 	fx.Quiet()
-	r.Rule = "(1) validator: the full product of key-entry variants (12 ids x 9 types x 14 purpose sets x 10 key-material shapes; every subset of {publicKeyJwk, publicKeyBase58, publicKeyMultibase} for every type), service variants (9 ids x 6 types x 17 endpoint shapes), list-level variants (duplicates, pairs; the same id twice for every ordered pair of accepted key / service shapes, adjacent and separated, in add and replace), replace documents built from them, every patch action disabled in turn, and JSON-patch operation lists over all six RFC 6902 operations x 22 paths x 12 from values x 6 values (thorough: all ordered pairs) are validated by the real ValidateDelta: accepted => the statement's structural predicate; (2) every accepted delta is applied by the real composer to 12 small documents: document or error, never a panic or a hang, and an accepted JSON patch leaves the key and service sections unchanged. Non-trivial: distinct accepted deltas and distinct deltas rejected by a rule."
+	r.Rule = "(1) validator: the full product of key-entry variants (12 ids x 9 types x 14 purpose sets x 10 key-material shapes; every subset of {publicKeyJwk, publicKeyBase58, publicKeyMultibase} for every type), service variants (9 ids x 6 types x 17 endpoint shapes), list-level variants (duplicates, pairs; the same id twice for every ordered pair of accepted key / service shapes, adjacent and separated, in add and replace), replace documents built from them, every patch action disabled in turn, and JSON-patch operation lists over all six RFC 6902 operations x 22 paths x 12 from values x 6 values (thorough: all ordered pairs) are validated by the real ValidateDelta: accepted => the statement's structural predicate; (2) every accepted delta is applied by the real composer to 18 small documents (incl. alsoKnownAs states that an accepted JSON patch can leave behind: non-URI strings, non-strings, no list): document or error, never a panic or a hang, and an accepted JSON patch leaves the key and service sections unchanged. Non-trivial: distinct accepted deltas and distinct deltas rejected by a rule."
 	ver := fx.NewVersion(fx.DefaultProtocol(), nil)
 	docs := c18Docs()
 	uc := fx.Commit(fx.NewKey(fx.Ed25519, "c18/uc"), fx.SHA256)
